@@ -187,6 +187,7 @@ def mono1(ctx: Ctx, chk) -> None:
 
 def is_transparent(ctx: Ctx, f: FuncInfo) -> bool:
     """`return await super().<same>(gateway, message, message_buffer)`; other statements touch only internal_messages."""
+    f = ctx.inl(f)  # bookkeeping helpers (a method of the buffer record that removes the marker ...) written out
     body = [s for s in f.node.body if not (isinstance(s, ast.Expr) and isinstance(s.value, ast.Constant))]
     if not body or not isinstance(body[-1], ast.Return):
         return False
@@ -407,8 +408,24 @@ def except1(ctx: Ctx, chk) -> None:
             sleeping = False
             if cal is not None:
                 flush = any(f.fq in flush_fqs for f, _fr in tables.reachable_defs(ctx, cal, V))
-                for f in tables.chain_and_helpers(ctx, cal, V):
-                    f = ctx.inl(f, lambda h: not h.name.startswith("handle_") and h.fq not in flush_fqs)  # shared bookkeeping helpers, specialised to this call
+                want_ = lambda h: not h.name.startswith("handle_") and h.fq not in flush_fqs  # noqa: E731
+                defs_ = list(tables.chain_and_helpers(ctx, cal, V))
+                # a helper that is written out into every function of the chain that calls it is judged there, specialised
+                # to that call (a flag argument decides what it does); on its own it is not part of this cell
+                written_ = set()
+                for f in defs_:
+                    written_ |= set(getattr(ctx.inl(f, want_), "inlined_funcs", []) or [])
+                still_called_ = set()
+                for f in defs_:
+                    if f in written_:
+                        continue
+                    for n in ctx.own_nodes(ctx.inl(f, want_)):
+                        if isinstance(n, ast.Call) and isinstance(n.func, (ast.Name, ast.Attribute)):
+                            still_called_.add(n.func.id if isinstance(n.func, ast.Name) else n.func.attr)
+                for f in defs_:
+                    if f in written_ and f.name not in still_called_:
+                        continue
+                    f = ctx.inl(f, want_)  # shared bookkeeping helpers, specialised to this call
                     for n in ctx.own_nodes(f):
                         if isinstance(n, ast.Assign) and any(isinstance(t, ast.Attribute) and t.attr == "sleeping" for t in n.targets):
                             sleeping = True
